@@ -127,7 +127,11 @@ class World:
         return o
 
     # -- model mapper
-    def mapper(self, root):
+    def mapper(self, root, missing="KeyError"):
+        """missing: what reading a key that does not exist raises.  fsspec's FSMap turns FileNotFoundError / IsADirectoryError /
+        NotADirectoryError of the file system into KeyError and lets everything else through (object stores answer a read of a
+        missing object with 'permission denied' when listing is not allowed), while `key in mapper` is fs.isfile, which answers
+        False on any error"""
         def key(k):
             if not (isinstance(k, Const) and isinstance(k.v, str)):
                 raise ShapeError(f"model mapper: key {k!r:.40}")
@@ -136,6 +140,8 @@ class World:
         def getitem(I, a, kw):
             self.events.append(("mapper-get", key(a[0])))
             if key(a[0]) not in self.remote:
+                if missing == "PermissionError":
+                    raise _Raise("PermissionError: [Errno 13] access denied", ["PermissionError", "OSError", "Exception", "BaseException", "object"])
                 raise _Raise(f"KeyError {a[0].v!r}", ["KeyError", "LookupError", "Exception", "BaseException", "object"])
             return self.remote[key(a[0])]
 
@@ -147,7 +153,16 @@ class World:
         m.fields["__getitem__"] = Fn("py", impl=getitem, name="__getitem__")
         m.fields["__setitem__"] = Fn("py", impl=setitem, name="__setitem__")
         m.fields["__contains__"] = Fn("py", impl=lambda I, a, kw: Const(key(a[0]) in self.remote), name="__contains__")
-        m.fields["get"] = Fn("py", impl=lambda I, a, kw: self.remote.get(key(a[0]), a[1] if len(a) > 1 else Const(None)), name="get")
+
+        def get(I, a, kw):
+            # Mapping.get: self[key], KeyError -> default (anything else passes through)
+            try:
+                return getitem(I, a[:1], {})
+            except _Raise as e:
+                if e.classes and "KeyError" in e.classes:
+                    return a[1] if len(a) > 1 else kw.get("default", Const(None))
+                raise
+        m.fields["get"] = Fn("py", impl=get, name="get")
         return m
 
     # -- interpreter wired to this world
